@@ -15,6 +15,8 @@ def dispatch (j : Json) : Except String Json := do
   | "basic" => cmdBasic j
   | "ops" => cmdOps j
   | "adder" => cmdAdder j
+  | "seqmult" => cmdSeqMult j
+  | "lfsr" => cmdLfsr j
   | "conv" => cmdConv j
   | "muxes" => cmdMuxes j
   | "cond" => cmdCond j
